@@ -230,6 +230,10 @@ def main():
             print(f"[{pid}] {r['name']}: {r['status']} props={r.get('props', 0)} "
                   f"covers={r.get('covers_hit', '-')}/{r.get('covers_total', '-')} wall={r.get('wall_s', 0)}s "
                   f"{(r.get('reason') or '')[:300]} {'; '.join(r.get('inconclusive', [])[:2])[:300]}", flush=True)
+    if hasattr(mod, "extra_results") and not a.only:
+        for r in mod.extra_results(tier):
+            results.append(r)
+            print(f"[{pid}] {r['name']}: {r['status']} props={r.get('props', 0)} wall={r.get('wall_s', 0)}s {(r.get('reason') or '')[:300]}", flush=True)
     results.sort(key=lambda r: r["name"])
     known, _fixed = load_known()
     violations, known_hits = [], []
